@@ -1960,8 +1960,12 @@ def expand_bond_dimension(mps, hint_mpo=None, coef=1e-10, include_ex=True):
             for i in range(mps.qntot[0]):
                 ex_state = Mpo.onsite(mps.model, r"a^\dagger") @ ex_state
         elif mps.is_mpdm:
-            assert mps.qntot == 1
-            ex_state: MatrixProduct = mps.max_entangled_ex(mps.model)
+            if np.all(np.asarray(mps.qntot) == 0):
+                # zero exciton space (thermal equilibrium of the vibrations)
+                ex_state: MatrixProduct = mps.max_entangled_gs(mps.model)
+            else:
+                assert mps.qntot == 1
+                ex_state: MatrixProduct = mps.max_entangled_ex(mps.model)
         else:
             assert False
         ex_state.compress_config = mps.compress_config
